@@ -101,6 +101,7 @@ def generate(rng, tier, cls):
         prev = sid
 
     return {'actors': [], 'schedule': [], 'faults': [], 'ids': ids,
+            'noise': pipe.gen_noise(rng),
             'crlf': rng.chance(0.15),
             'block_size': rng.choice([None, None, 1, 9, 97])}
 
@@ -156,6 +157,7 @@ def execute(scn, L):
 
     data = render(ids, crlf=bool(scn.get('crlf')))
     k = first_illegal(ids)
+    pipe.run_noise(scn, L, out)
     w = World(scn, L)
     recs, end, exc = read_all(w, data, block_size=scn.get('block_size'),
                               actor='R')
